@@ -1518,6 +1518,13 @@ impl<T: Transport, Env: UtpEnvironment> VirtualSocket<T, Env> {
         });
     }
 
+    /// How many bytes of the TX buffer are not segmented yet, right now.
+    fn unsegmented_data_now(&self) -> usize {
+        let c = self.user_tx.consumer.lock();
+        let s = c.as_slices();
+        (s.0.len() + s.1.len()).saturating_sub(self.user_tx_segments.total_len_bytes())
+    }
+
     fn unsent_data_exists(&mut self) -> bool {
         // either unsegmented data exists, or unsent data exists or both
         self.this_poll.unsegmented_data > 0
@@ -1557,6 +1564,7 @@ impl<T: Transport, Env: UtpEnvironment> VirtualSocket<T, Env> {
         }
 
         self.this_poll.restart = true;
+        let mut rechecked_tx_after_close = false;
 
         // Restart can be set by functions within.
         while self.this_poll.restart {
@@ -1603,11 +1611,22 @@ impl<T: Transport, Env: UtpEnvironment> VirtualSocket<T, Env> {
 
             if ((self.user_rx.is_reader_dropped() && self.user_tx.is_writer_dropped())
                 || self.user_tx.is_writer_shutdown())
-                && !self.unsent_data_exists()
                 && !self.state.is_local_fin_or_later()
             {
-                debug!("consumer closed and no data to send, shutting down");
-                self.transition_to_fin_wait_1();
+                // The writer may have written its last bytes (from another thread) after this
+                // poll segmented the TX buffer and before we saw it gone just now. They must go
+                // out before the FIN: go around once more to pick them up.
+                if !rechecked_tx_after_close
+                    && self.unsegmented_data_now() > self.this_poll.unsegmented_data
+                {
+                    rechecked_tx_after_close = true;
+                    self.this_poll.restart = true;
+                    continue;
+                }
+                if !self.unsent_data_exists() {
+                    debug!("consumer closed and no data to send, shutting down");
+                    self.transition_to_fin_wait_1();
+                }
             }
 
             // (Re)send a pending FIN if needed.
